@@ -294,7 +294,12 @@ func (e *Engine) keyFam(v ssa.Value, out map[string]bool, seen map[ssa.Value]boo
 		cc := x.Common()
 		if b, ok := cc.Value.(*ssa.Builtin); ok {
 			if b.Name() == "append" && len(cc.Args) > 0 {
+				before := len(out)
 				e.keyFam(cc.Args[0], out, seen, depth+1, ctx)
+				// append(make([]byte, 0, n), Prefix...): the prefix is the first appended chunk
+				if len(out) == before && len(cc.Args) > 1 && isEmptyBuffer(cc.Args[0]) {
+					e.keyFam(cc.Args[1], out, seen, depth+1, ctx)
+				}
 			}
 			return
 		}
@@ -318,7 +323,8 @@ func (e *Engine) keyFam(v ssa.Value, out map[string]bool, seen map[ssa.Value]boo
 			// known pass-through helpers in deps
 			switch callee.String() {
 			case "github.com/cosmos/cosmos-sdk/types.CopyBytes", "cosmossdk.io/store/types.PrefixEndBytes",
-				"github.com/cosmos/cosmos-sdk/types/address.MustLengthPrefix":
+				"github.com/cosmos/cosmos-sdk/types/address.MustLengthPrefix",
+				"strconv.AppendUint", "strconv.AppendInt", "strconv.AppendQuote", "encoding/binary.BigEndian.AppendUint64":
 				if len(cc.Args) > 0 {
 					e.keyFam(cc.Args[0], out, seen, depth+1, ctx)
 				}
@@ -430,4 +436,18 @@ func famMatch(id, mod, hx string) bool {
 		return false
 	}
 	return id[:i] == mod && strings.HasPrefix(id[i+1:], hx)
+}
+
+// isEmptyBuffer: make([]byte, 0, n) / nil / []byte{} (possibly through a slice expression)
+func isEmptyBuffer(v ssa.Value) bool {
+	switch x := v.(type) {
+	case *ssa.MakeSlice:
+		l, ok := constInt(x.Len)
+		return ok && l == 0
+	case *ssa.Const:
+		return x.Value == nil
+	case *ssa.Slice:
+		return isEmptyBuffer(x.X)
+	}
+	return false
 }
